@@ -294,3 +294,14 @@ def norm_stmt(node) -> str:
     except Exception:  # noqa: BLE001
         s = ast.dump(node)
     return " ".join(s.split())[:160]
+
+
+def enclosing_function_name(node):
+    """Qualified name (Class.func or func, '<module>' at top level) of the function a node of a loaded module sits in."""
+    names = []
+    cur = getattr(node, "_parent", None)
+    while cur is not None:
+        if isinstance(cur, (ast.FunctionDef, ast.AsyncFunctionDef, ast.ClassDef)):
+            names.append(cur.name)
+        cur = getattr(cur, "_parent", None)
+    return ".".join(reversed(names)) if names else "<module>"
